@@ -60,6 +60,9 @@ def persistent_dump(snap):
                                  "env_var", "nglob", "step_resource")}
 
 
+DOUBLE_RUN_MECH = "two commands of the same step run at the same time"
+
+
 class Transaction:
     __slots__ = ("index", "task", "task_name", "nstmt", "changes_before", "writes", "is_pop",
                  "rolled_back", "off_thread", "foreign_stmt", "request", "changed")
@@ -102,6 +105,9 @@ class CommitMonitor:
         self.keep_tx = False
         self.check_rollback = False
         self.snapshot_reads = snapshot_reads
+        self.snapshot_decisions = True
+        self.running_cmds = {}
+        self.decision = None  # (snapshot at the moment of the choice, (step, new state) or None)
 
     # -- harness monitor protocol -------------------------------------------------------------
     def on_db(self, build, db):
@@ -117,6 +123,19 @@ class CommitMonitor:
     async def on_phase_end(self, build, handler):
         for cb in getattr(self, "phase_end_checkers", ()):
             await cb(self, build, handler)
+
+    def on_event(self, build, ev):
+        """One command per step at a time: a step whose command is still running was handed out
+        again (it was made PENDING while it ran)."""
+        if ev["type"] == "cmd_start":
+            self.count("command_starts_seen")
+            running = self.running_cmds.setdefault(ev["step"], set())
+            if running:
+                self.finding(DOUBLE_RUN_MECH, f"{ev['step'][:160]!r}: job {ev.get('job')} starts while "
+                             f"job(s) {sorted(running)} of the same step still run")
+            running.add(ev.get("job"))
+        elif ev["type"] == "cmd_end":
+            self.running_cmds.get(ev["step"], set()).discard(ev.get("job"))
 
     def count(self, name, n=1):
         self.counters[name] = self.counters.get(name, 0) + n
@@ -215,6 +234,19 @@ def install():
     orig_exit = DBSession.__aexit__
     orig_run = DBSession._run
     orig_pop = Scheduler.pop_next_job
+    orig_next = Scheduler._get_next_step
+
+    def get_next(self):
+        # The decision itself: inside the transaction of pop_next_job, after the cached columns
+        # were brought up to date and before anything is changed because of the choice.
+        result = orig_next(self)
+        mon = _MONITORS.get(id(self.db))
+        if mon is not None and self.db._held is not None and mon.snapshot_decisions:
+            chosen = None if result is None else (result[0].i, result[1].value)
+            mon.decision = (snapshot(self.db._held.con), chosen)
+        return result
+
+    Scheduler._get_next_step = get_next
 
     async def aenter(self):
         res = await orig_enter(self)
